@@ -104,6 +104,7 @@ def gen_case(rng, k):
     n_init = rng.choice([1, 1, 1, 1, 1, 1, 2, 2, 3])
     ions = ["Na", "K", "Ca", "Mg"]
     sol_lines = []
+    comps = []
     present = set(["Na", "K", "Ca", "Mg", "S", "Si", "C", "Cl"])
     for s in range(1, n_init + 1):
         ph = rng.choice([6.5, 7.0, 7.5, 8.0]) + rng.random() * 0.3
@@ -112,6 +113,7 @@ def gen_case(rng, k):
         cat = 2 * comp["Ca"] + 2 * comp["Mg"] + comp["K"]
         an = 2 * comp["S(6)"] + comp["C(4)"]
         comp["Cl"] = max(0.05, cat - an + rng.uniform(0.2, 3))
+        comps.append(dict(comp))
         L = ["SOLUTION %d" % s, "  units mmol/kgw", "  temp %s" % fmt(rng.choice([10, 25, 25, 40])), "  pH %s" % fmt(ph)]
         for e, v in comp.items():
             L.append("  %s %s" % (e, fmt(v)))
@@ -159,20 +161,40 @@ def gen_case(rng, k):
             amounts[precip] = -0.02
         else:
             precip = None
-    # perturbation of the final water: an unmodelled salt, inside or outside the uncertainty
-    unc = rng.choice([0.02, 0.05, 0.05, 0.1])
-    pert_kind = rng.choice(["none", "none", "inside", "inside", "inside", "outside"])
-    pert = None
-    if pert_kind != "none":
-        salt = rng.choice(SALTS_PERTURB)
-        scale = {"inside": 0.3, "outside": 4.0}[pert_kind]
-        pert = (salt, unc * scale * rng.uniform(0.2, 1.0))   # mmol, relative to ~1 mmol totals
-        react.append("  %s %s" % (pert[0], fmt(pert[1])))
     mix = None
     if n_init > 1:
         w = [rng.uniform(0.2, 1.0) for _ in range(n_init)]
         t = sum(w)
         mix = [x / t for x in w]
+    # perturbation of the final water: an unmodelled salt, inside or outside the uncertainty
+    unc = rng.choice([0.02, 0.05, 0.05, 0.1])
+    pert_kind = rng.choice(["none", "none", "inside", "inside", "inside", "outside"])
+    # a TIGHTER-than-global limit declared under -balances for a redox-active element, by ELEMENT name (applies to every valence
+    # state: S -> S(6), S(-2); C -> C(4), C(-4)) or, as control, by valence-state name; the final water is then perturbed by an
+    # amount of that element that lies BETWEEN what the tight limit and what the global limit can absorb
+    tight = None
+    if rng.random() < 0.4:
+        el = rng.choice(["S", "S", "C"])
+        state = {"S": "S(6)", "C": "C(4)"}[el]
+        t_ = unc * rng.choice([0.1, 0.2, 0.4])
+        tight = {"elem": el, "name": el if rng.random() < 0.75 else state, "limit": float("%.3g" % t_)}
+        if rng.random() < 0.7:
+            pert_kind = "between"
+    pert = None
+    if pert_kind == "between":
+        el = tight["elem"]
+        state = {"S": "S(6)", "C": "C(4)"}[el]
+        wts = mix or [1.0]
+        tot = sum(w_ * cp[state] for w_, cp in zip(wts, comps)) + sum(a * float(parse_formula(POOL[p_]).get(el, 0)) for p_, a in amounts.items())
+        rel = rng.uniform(2.3 * tight["limit"], max(2.6 * tight["limit"], 1.6 * unc))
+        salt = {"S": "Na2SO4", "C": "NaHCO3"}[el]
+        pert = (salt, max(1e-4, tot * rel))
+        react.append("  %s %s" % (pert[0], fmt(pert[1])))
+    elif pert_kind != "none":
+        salt = rng.choice(SALTS_PERTURB)
+        scale = {"inside": 0.3, "outside": 4.0}[pert_kind]
+        pert = (salt, unc * scale * rng.uniform(0.2, 1.0))   # mmol, relative to ~1 mmol totals
+        react.append("  %s %s" % (pert[0], fmt(pert[1])))
     L = ["TITLE C18 case %d" % k]
     L += sol_lines
     L.append("END")
@@ -252,13 +274,20 @@ def gen_case(rng, k):
                 present.add(el)
     for e in sorted(present):
         vals = []
-        if rng.random() < 0.15 and e not in ("C", "S", "N"):
+        if rng.random() < 0.15:
             vals = [rng.choice([0.01, 0.03, 0.1, 0.2])]
             if rng.random() < 0.4:
                 vals.append(rng.choice([0.02, 0.06]))
             if rng.random() < 0.15:
                 vals = [-rng.choice([1e-6, 5e-6, 2e-5])]
         balances[e] = vals
+    if tight:
+        if tight["name"] != tight["elem"] and not balances.get(tight["elem"]):
+            balances[tight["elem"]] = []
+        balances[tight["name"]] = [tight["limit"]]
+        if rng.random() < 0.5:
+            # pin the partner cation so that a phase transfer cannot absorb the perturbation
+            balances[rng.choice(["Ca", "Na"])] = [float("%.3g" % (tight["limit"] * rng.choice([0.5, 1.0])))]
     if rng.random() < 0.15:
         balances["Alkalinity"] = [rng.choice([0.03, 0.1])]
     ph_unc = None
@@ -295,7 +324,7 @@ def gen_case(rng, k):
     L.append("END")
     meta = {"n_init": n_init, "cand": cand, "cons": cons, "force": sorted(force), "amounts": amounts, "mix": mix,
             "uncs": uncs, "balances": balances, "ph_unc": ph_unc, "minimal": minimal, "range": rangeopt, "tol": tol,
-            "mp": mp, "mineral_water": minwat, "pert": pert, "pert_kind": pert_kind, "drop_true": drop_true, "hp": hp}
+            "mp": mp, "mineral_water": minwat, "pert": pert, "pert_kind": pert_kind, "tight": tight, "drop_true": drop_true, "hp": hp}
     return {"text": "\n".join(L) + "\n", "meta": meta}
 
 
@@ -373,19 +402,64 @@ class Skip(Exception):
     pass
 
 
-def expected_unc(meta, name, s, nsol):
-    """Declared uncertainty of master species `name` in solution index s according to the input text."""
+def parse_inverse_text(text):
+    """Independent reader of the DECLARED uncertainties of the (first) INVERSE_MODELING block of an input text:
+    -uncertainty list (default 0.05, last value repeated), -balances entries (element or valence-state name followed by 0..n
+    values, last value repeated; no value = the global list), pH entry (default 0.05).  This is the specification's view of
+    "declared uncertainty"; nothing here comes from the engine."""
+    lines = text.split("\n")
+    i = 0
+    while i < len(lines) and not re.match(r"^\s*INVERSE_MODELING\b", lines[i], flags=re.I):
+        i += 1
+    if i >= len(lines):
+        raise Skip("no INVERSE_MODELING block")
+    uncs, balances, ph = None, {}, None
+    in_bal = False
+    for ln in lines[i + 1:]:
+        ln = ln.split("#")[0].strip()
+        if not ln:
+            continue
+        if re.match(r"^(END|SOLUTION|SELECTED_OUTPUT|PHASES|USE|REACTION|MIX|SAVE|TITLE|KNOBS|PRINT|EQUILIBRIUM_PHASES|INVERSE_MODELING)\b", ln, flags=re.I):
+            break
+        tok = ln.split()
+        if tok[0].startswith("-"):
+            opt = tok[0][1:].lower()
+            in_bal = False
+            if opt.startswith("u"):                       # -uncertainty / -uncertainties / -u
+                uncs = [float(t) for t in tok[1:]]
+            elif opt.startswith("b"):                     # -balances / -bal
+                in_bal = True
+                tok = tok[1:]
+                if not tok:
+                    continue
+            else:
+                continue
+        if in_bal and tok:
+            try:
+                vals = [float(t) for t in tok[1:]]
+            except ValueError:
+                raise Skip("unreadable -balances line %r" % ln)
+            if tok[0].lower() == "ph":
+                ph = vals
+            else:
+                balances[tok[0]] = vals
+    return {"uncs": uncs or [0.05], "balances": balances, "ph": ph or [0.05]}
+
+
+def expected_unc(decl, name, s, nsol):
+    """Declared uncertainty of master species `name` in solution index s: an entry for the valence state itself, else an entry
+    for its element (an element name applies to EVERY valence state of that element), else the global list."""
     def pick(vals):
         return vals[s] if s < len(vals) else vals[-1]
     b = base_elem(name)
-    if meta["balances"].get(name):
-        return pick(meta["balances"][name])
-    if meta["balances"].get(b):
-        return pick(meta["balances"][b])
-    return pick(meta["uncs"])
+    if decl["balances"].get(name):
+        return pick(decl["balances"][name])
+    if decl["balances"].get(b):
+        return pick(decl["balances"][b])
+    return pick(decl["uncs"])
 
 
-def build_problem(r, meta=None):
+def build_problem(r, meta=None, text=None):
     """-> dict with everything that does not depend on the individual model."""
     p = r["problem"]
     lay = p["layout"]
@@ -393,6 +467,7 @@ def build_problem(r, meta=None):
     nph = len(p["phases"])
     toler = H(p["toler"])
     sgn = [Fr(1)] * (ns - 1) + [Fr(-1)]
+    decl = parse_inverse_text(text) if text is not None else None
     # valence states grouped by element
     groups = {}
     order = []
@@ -430,9 +505,10 @@ def build_problem(r, meta=None):
                     T.append(H(sol["alk"]))
                 else:
                     T.append(H(sol["totals"].get(e["name"], "0x0p+0")) if "totals" in sol else Fr(0))
-            U = [H(u) for u in e["unc"]]
+            Ue = [H(u) for u in e["unc"]]                     # what the engine's tidy_inverse ended up with (cross-checked only)
+            U = [Fr(float(expected_unc(decl, e["name"], s, ns))) for s in range(ns)] if decl else Ue
             bound = [(u * abs(T[s])) if u > 0 else -u for s, u in enumerate(U)]
-            states.append({"j": j, "name": e["name"], "T": T, "bound": bound, "unc": U})
+            states.append({"j": j, "name": e["name"], "T": T, "bound": bound, "unc": U, "unc_engine": Ue})
         if b == "Alkalinity":
             c = []
             ok = True
@@ -485,7 +561,8 @@ def build_problem(r, meta=None):
     cons = [ph["constraint"] for ph in p["phases"]]
     return {"ns": ns, "nph": nph, "toler": toler, "sgn": sgn, "rows": rows, "cons": cons, "lay": lay, "p": p,
             "range": bool(p["range"]), "minimal": bool(p["minimal"]),
-            "ph_unc": [H(s["ph_unc"]) for s in p["solns"]], "carbon": bool(p["carbon"]), "water_unc": H(p["water_uncertainty"])}
+            "ph_unc": ([Fr(float(decl["ph"][min(i_, len(decl["ph"]) - 1)])) for i_ in range(ns)] if decl else [H(s["ph_unc"]) for s in p["solns"]]),
+            "ph_unc_engine": [H(s["ph_unc"]) for s in p["solns"]], "decl": decl, "carbon": bool(p["carbon"]), "water_unc": H(p["water_uncertainty"])}
 
 
 def model_terms(pb, m):
@@ -982,8 +1059,9 @@ def corpus_cases():
 
 
 def gen():
-    import c18_bits
+    import c18_bits, c18_tidy
     c18_bits.generate()
+    c18_tidy.generate()
 
 
 _seen_keys = set()
@@ -1053,22 +1131,35 @@ def analyse(ctx, cases, res, stats):
             stats["no inverse problem was set up"] += 1
             continue
         try:
-            pb = build_problem(r, c.get("meta"))
+            pb = build_problem(r, c.get("meta"), c["text"])
         except Skip as ex:
             stats["skipped: " + str(ex)[:60]] += 1
             continue
-        # declared uncertainties as read by the engine vs. the input text
+        # declared uncertainties (read independently from the input text) vs. what the engine's read/tidy_inverse produced
         me = c.get("meta")
-        if me:
+        if pb["decl"]:
             for r_ in pb["rows"]:
                 if r_.get("water"):
                     continue
                 for st in r_["states"]:
                     for s in range(pb["ns"]):
-                        want = Fr(float(expected_unc(me, st["name"], s, pb["ns"])))
-                        if st["unc"][s] != want:
-                            report(ctx, "C18:uncertainty-misread", "uncertainty of %s in solution %d read as %g, input says %g" % (st["name"], s, float(st["unc"][s]), float(want)),
-                                          {"kind": "input", "input_text": c["text"], "database": dbname(c), "observed": float(st["unc"][s]), "expected": float(want)})
+                        if st["unc_engine"][s] != st["unc"][s]:
+                            stats["uncertainty misread"] += 1
+                            report(ctx, "C18:uncertainty-misread",
+                                   "declared uncertainty of %s in solution %d is %g (input text: entry for the valence state, else for its element, "
+                                   "else -uncertainty); the engine uses %g" % (st["name"], s, float(st["unc"][s]), float(st["unc_engine"][s])),
+                                   {"kind": "input", "input_text": c["text"], "database": dbname(c),
+                                    "observed": {"row": st["name"], "solution_index": s, "engine": float(st["unc_engine"][s])},
+                                    "expected": float(st["unc"][s])})
+            if pb["carbon"] and pb["ph_unc"] != pb["ph_unc_engine"]:
+                report(ctx, "C18:uncertainty-misread", "declared pH uncertainty %r, the engine uses %r" % ([float(x) for x in pb["ph_unc"]], [float(x) for x in pb["ph_unc_engine"]]),
+                       {"kind": "input", "input_text": c["text"], "database": dbname(c)})
+        if me:
+            # the text reader must agree with what the generator meant to write (guards the reader itself)
+            d_ = pb["decl"]
+            if ([float(x) for x in d_["uncs"]] != [float("%.6g" % u) for u in me["uncs"]]
+                    or {k: v for k, v in d_["balances"].items()} != {k: [float("%g" % x) for x in v] for k, v in me["balances"].items()}):
+                ctx.obligation("check-infrastructure(parse_inverse_text)", False, "reader %r vs generator %r" % (d_, (me["uncs"], me["balances"])))
             pe = pb["p"]
             want_opts = {"minimal": int(me["minimal"]), "range": int(me["range"]), "mp": int(me["mp"]),
                          "mineral_water": 1 if me["mineral_water"] is None else int(me["mineral_water"])}
